@@ -514,7 +514,7 @@ def crosscheck_task(args):
             a = canon(sym_out[1])
             b = canon(RZ.lift(rout[1]))
             if not close_struct(a, b):
-                out['mismatch'] = f'result differs: engine {a} vs CPython {b} inputs { {k: float(v) for k, v in fval.items()} }'
+                out['mismatch'] = f'result differs: engine {a} vs CPython {b} inputs { {k: (float(v) if not hasattr(v, 'tolist') else v.tolist()) for k, v in fval.items()} }'
         return out
     except Unsupported as e:
         out['skipped'] = str(e)
@@ -536,7 +536,7 @@ def canon(v):
     """symbolic-domain value holding concrete numbers -> plain python structure"""
     from .interp import NamedTuple
     if isinstance(v, Obj):
-        return {'__cls__': v.cls, **{k: canon(x) for k, x in v.attrs.items()}}
+        return {'__cls__': v.cls, **{k: canon(x) for k, x in v.attrs.items() if k != 'dtype'}}
     if isinstance(v, Vec):
         return [canon(x) for x in v.elems]
     if isinstance(v, NamedTuple):
